@@ -406,6 +406,12 @@ def reshape(tens, shape, eps=1e-16, rmax=sys.maxsize):
                 core = tn.reshape(
                     core, [core.shape[0], core.shape[1]*core.shape[2], -1, core.shape[-1]])
 
+        idx_shape += 1
+        while idx_shape < len(shape):
+            cores_new.append(
+                tn.ones((1, 1, 1, 1), dtype=cores_new[-1].dtype, device=cores_new[-1].device))
+            idx_shape += 1
+
     else:
         if np.prod(tens.N) != np.prod(shape):
             raise ShapeMismatch(
